@@ -109,6 +109,6 @@ func c14Body(c *core.Ctx) {
 func init() {
 	Evaluators["csscale"] = evalCSScale
 	register(&Check{ID: "C14", Engine: "E+B", Body: c14Body,
-		Rule: "the EAN, Code 128 and Code 39 enumerations of C06/C05/C07 with the oracle CheckSum() == reference check value == value of the decoded check character; plus, on a fixed sub-family, every sequence of 1..3 Scale operations (widths W, 2W+1), after each of which the result must still expose CheckSum() with the same value",
+		Rule:        "the EAN, Code 128 and Code 39 enumerations of C06/C05/C07 with the oracle CheckSum() == reference check value == value of the decoded check character; plus, on a fixed sub-family, every sequence of 1..3 Scale operations (widths W, 2W+1), after each of which the result must still expose CheckSum() with the same value",
 		Assumptions: []string{"small-scope bounds as in C05-C07", "reference check values computed by harness/oracle/lin1d"}})
 }
